@@ -5,7 +5,8 @@
   decides by that table alone.  Counterexamples D7 / D8 (findings) are machine-checked on the
   model and replayed on the implementation by the monitor.  [B] `complete_expr`: completeness of the
   parser w.r.t. the levelled derivation relation for ALL expressions (unbounded; SqLemmas/ParseComplete).
-  Pending: the statement / program level of `complete`, and the converse `sound`.
+  `complete`: the same for whole programs (statements, separators) — every program the relation derives is
+  accepted by `parseTokens` with exactly the derived tree.  Pending: the converse `sound`.
 -/
 import Sq.Proto
 import SqLemmas.ParseComplete
@@ -69,7 +70,40 @@ back to exactly `t` — for every continuation whose first token has the recorde
 /-- **complete** (expressions): unbounded — every derivation, any depth, any continuation -/
 theorem complete_expr {m : Nat} {a : Assoc} {ts : List Token} {t : Op} {b : Bool} {nxt : LA}
     (h : RExpr m a ts t b nxt) :
-    ∃ n, ∀ f, n ≤ f → ∀ tl, peekTy tl = nxt → pExpr f m a (ts ++ tl) = .ok ((t, b), tl) := cExpr h
+    ∃ n, n ≤ 2 * ts.length + 1 ∧
+      ∀ f, n ≤ f → ∀ tl, peekTy tl = nxt → pExpr f m a (ts ++ tl) = .ok ((t, b), tl) := cExpr h
+
+/-- **complete** (statements): assignment, augmented assignment, `del e[k]`, `e[k] = v`, `e[k] op= v`,
+    expression statements and the empty statement -/
+theorem complete_stmt {ts : List Token} {s : Option Op} {nxt : LA} (h : RStmt ts s nxt) :
+    ∀ f, 2 * ts.length + 1 ≤ f → ∀ tl, peekTy tl = nxt → pStatement f (ts ++ tl) = .ok (s, tl) := cStmt h
+
+/-- **complete** (programs): every token list the levelled grammar derives as a program is accepted by the
+    parser — with the fuel `parseTokens` itself supplies — and yields exactly the derived tree -/
+theorem complete_program {ts : List Token} {out : List Op} (h : RCode [] ts out) :
+    parseTokens ts = .ok (.code out) := complete h
+
+/-- non-vacuity: the relation derives `x = a + b * c ; y` (for any tokens of these types) with the table's
+    grouping, so `complete_program` says the parser returns exactly that tree -/
+theorem derivation_example {x eq a pl b ti c nl y : Token}
+    (hx : x.ty = .NAME) (heq : eq.ty = .ASSIGN) (ha : a.ty = .NAME) (hpl : pl.ty = .PLUS) (hb : b.ty = .NAME)
+    (hti : ti.ty = .TIMES) (hc : c.ty = .NAME) (hnl : nl.ty = .NEWLINE) (hy : y.ty = .NAME) :
+    RCode [] [x, eq, a, pl, b, ti, c, nl, y]
+      [.assign x.val (.bin .add (.name a.val) (.bin .mul (.name b.val) (.name c.val))), .name y.val] := by
+  have hmul : RExpr 6 .left ([b] ++ [ti, c]) (.bin .mul (.name b.val) (.name c.val)) false (some .NEWLINE) :=
+    RExpr.mk (RPrim.name hb (by simp [peekTy, hti]) (by simp [peekTy, hti]))
+      (RSpine.bin (tsr := [c]) (rest := []) (lv := 7) (la := .left) (k := .mul) (by rw [hti]; rfl) (by rw [hti]; rfl)
+        (RExpr.mk (ts0 := [c]) (ts := []) (RPrim.name hc (by simp [peekTy]) (by simp [peekTy])) (RSpine.nil rfl))
+        (RSpine.nil rfl))
+  have hadd : RExpr 0 .right ([a] ++ [pl, b, ti, c]) (.bin .add (.name a.val) (.bin .mul (.name b.val) (.name c.val)))
+      false (some .NEWLINE) :=
+    RExpr.mk (RPrim.name ha (by simp [peekTy, hpl]) (by simp [peekTy, hpl]))
+      (RSpine.bin (tsr := [b, ti, c]) (rest := []) (lv := 6) (la := .left) (k := .add) (by rw [hpl]; rfl) (by rw [hpl]; rfl)
+        hmul (RSpine.nil rfl))
+  have hy' : RExpr 0 .right ([y] ++ []) (.name y.val) false none :=
+    RExpr.mk (RPrim.name hy (by simp [peekTy]) (by simp [peekTy])) (RSpine.nil trivial)
+  exact RCode.more (ts := [x, eq, a, pl, b, ti, c]) (RStmt.assign (Or.inr rfl) hx heq hadd) hnl
+    (RCode.last (RStmt.expr (Or.inl rfl) hy'))
 
 /-- redundant parentheses never change the tree: if `ts` reads as `e` inside parentheses, then
     `( ts )` reads as the same `e` wherever a primary may stand -/
